@@ -5,13 +5,13 @@ Local Open Scope Z_scope.
 
 (* the observer's bookkeeping agrees with the notification's state *)
 Definition NfInv (c : nf_cfg) (s : nf_state) (g : nf_ghost) : Prop :=
-  g_all g = nf_npu s /\ g_last g = nf_lns s /\
+  g_inc g = nf_npu s /\ g_last g = nf_lns s /\
   (g_ps g = true -> g_bad g = false -> nfc_interval c <= 0 -> nf_nomore s = true) /\
   (forall t, g_rem g = Some t -> t <= g_tm g /\ (0 < nfc_interval c -> t + nfc_interval c <= nf_next s)) /\
   Forall (fun h => sh_reminder h = false) (nf_stash s).
 
 Definition NfMasked (c : nf_cfg) (oi : nf_opinfo) (g : nf_ghost) : Prop :=
-  nf_may_defer c (oi_now oi) (oi_ctx oi) = true -> g_ps g = false /\ g_rem g = None.
+  nf_may_defer c oi = true -> g_ps g = false /\ g_rem g = None.
 
 Definition NfInvM (c : nf_cfg) (oi : nf_opinfo) (s : nf_state) (g : nf_ghost) : Prop :=
   NfInv c s g /\ NfMasked c oi g /\ g_tm g = oi_now oi.
@@ -19,7 +19,7 @@ Definition NfInvM (c : nf_cfg) (oi : nf_opinfo) (s : nf_state) (g : nf_ghost) : 
 Lemma nf_mask_inv c oi s g : NfInv c s g -> g_tm g = oi_now oi -> NfInvM c oi s (nf_g_mask c oi g).
 Proof.
   intros (A & B & C & D & E) T. unfold NfInvM, NfMasked, nf_g_mask.
-  destruct (nf_may_defer c (oi_now oi) (oi_ctx oi)) eqn:M.
+  destruct (nf_may_defer c oi) eqn:M.
   - split; [|split; [intros _; split; reflexivity|assumption]].
     repeat split; cbn; auto; try discriminate.
   - split; [repeat split; auto|split; [discriminate|assumption]].
@@ -61,9 +61,10 @@ Proof.
 Qed.
 
 Lemma nf_pre_begin_defer c now x ty force :
-  nf_pre c now x ty force = NfGBegin -> nf_may_defer c now x = true /\ ty = NfProblem.
+  nf_pre c now x ty force = NfGBegin ->
+  (nf_opt_active (nfc_begin c) && (now <? cx_lhsc x + nf_opt_val (nfc_begin c))) = true /\ ty = NfProblem /\ force = false.
 Proof.
-  unfold nf_pre, nf_may_defer. destruct force; [discriminate|]. destruct (cx_per_closed x); [discriminate|].
+  unfold nf_pre. destruct force; [discriminate|]. destruct (cx_per_closed x); [discriminate|].
   destruct (nf_type_eqb ty NfProblem) eqn:E; cbn [andb].
   - apply nf_type_eqb_eq in E.
     destruct (nf_opt_active (nfc_begin c) && (now <? cx_lhsc x + nf_opt_val (nfc_begin c))); [auto|].
@@ -78,6 +79,25 @@ Lemma nf_pre_problem_only c now x ty force :
 Proof.
   intro E. unfold nf_pre. rewrite E. cbn [andb]. destruct force; [auto|].
   destruct (cx_per_closed x); [auto|]. destruct (negb _); auto.
+Qed.
+
+Lemma nf_pre_problem_gate c now x ty force :
+  nf_pre c now x ty force = NfGEnd \/ nf_pre c now x ty force = NfGState -> nf_type_eqb ty NfProblem = true.
+Proof.
+  intro H. destruct (nf_type_eqb ty NfProblem) eqn:E; [reflexivity|].
+  destruct (nf_pre_problem_only c now x ty force E) as [Q|[Q|Q]]; rewrite Q in H; destruct H; discriminate.
+Qed.
+
+Lemma nf_pre_type c now x ty force : nf_pre c now x ty force = NfGType -> cx_per_closed x = false /\ force = false.
+Proof.
+  unfold nf_pre. destruct force; [discriminate|]. destruct (cx_per_closed x); [discriminate|]. auto.
+Qed.
+
+Lemma nf_supp_add_problem sp ty : ty <> NfProblem -> sp_problem (nf_supp_add sp ty) = true -> sp_problem sp = true.
+Proof.
+  intro N. unfold nf_supp_add.
+  destruct ty; try contradiction; destruct sp as [a b c' d]; cbn;
+    repeat (match goal with |- context [if ?b then _ else _] => destruct b; cbn end); auto; discriminate.
 Qed.
 
 Lemma nf_pre_period c now x ty force : nf_pre c now x ty force = NfGPeriod -> cx_per_closed x = true /\ force = false.
@@ -106,30 +126,48 @@ Let x := oi_ctx oi.
 Definition nf_s0 (ty : nf_type) (s : nf_state) : nf_state := if nf_type_eqb ty NfRecovery then nf_set_lns s [] else s.
 Definition nf_g0 (ty : nf_type) (g : nf_ghost) : nf_ghost := if nf_type_eqb ty NfRecovery then nf_g_ev c oi g NfoClr else g.
 
-Lemma nf_prologue_inv ty s g : NfInvM c oi s g -> NfInvM c oi (nf_s0 ty s) (nf_g0 ty g).
+(* the invariant without its notified-users clause (which is suspended between NfoClr and the end of the call) *)
+Definition NfInvB (s : nf_state) (g : nf_ghost) : Prop :=
+  g_last g = nf_lns s /\
+  (g_ps g = true -> g_bad g = false -> nfc_interval c <= 0 -> nf_nomore s = true) /\
+  (forall t, g_rem g = Some t -> t <= g_tm g /\ (0 < nfc_interval c -> t + nfc_interval c <= nf_next s)) /\
+  Forall (fun h => sh_reminder h = false) (nf_stash s) /\
+  NfMasked c oi g /\ g_tm g = oi_now oi.
+
+Lemma NfInvB_intro s g : g_inc g = nf_npu s -> NfInvB s g -> NfInvM c oi s g.
+Proof. intros A (B & C & D & E & M & T). split; [|split; assumption]. split; [assumption|]. repeat split; auto; apply D; assumption. Qed.
+
+Lemma nf_prologue_inv ty s g : NfInvM c oi s g -> NfInvB (nf_s0 ty s) (nf_g0 ty g).
 Proof.
-  intros H. unfold nf_s0, nf_g0. destruct (nf_type_eqb ty NfRecovery); [|assumption].
-  destruct H as ((A & B & C & D & E) & M & T).
-  unfold nf_g_ev. apply nf_mask_inv; [|assumption].
-  repeat split; cbn; auto; try discriminate; apply D; assumption.
+  intros ((A & B & C & D & E) & M & T). unfold NfInvB, nf_s0, nf_g0.
+  destruct (nf_type_eqb ty NfRecovery).
+  - unfold nf_g_ev, nf_g_mask, NfMasked. destruct (nf_may_defer c oi) eqn:Md;
+      cbn [g_inc g_pre g_last g_ps g_bad g_rem g_tm nf_mkg nf_lns nf_nomore nf_next nf_stash nf_set_lns].
+    + split; [reflexivity|]. split; [intros; discriminate|]. split; [intros; discriminate|].
+      split; [exact E|]. split; [intros _; split; reflexivity|exact T].
+    + split; [reflexivity|]. split; [intros; discriminate|]. split; [exact D|].
+      split; [exact E|]. split; [intro H; discriminate|exact T].
+  - exact (conj B (conj C (conj D (conj E (conj M T))))).
 Qed.
 
-Lemma nf_prologue_all ty g : g_all (nf_g0 ty g) = g_all g.
+Lemma nf_prologue_incset ty g :
+  (if nf_type_eqb ty NfRecovery then g_pre (nf_g0 ty g) else g_inc (nf_g0 ty g)) = g_inc g.
 Proof.
   unfold nf_g0, nf_g_ev, nf_g_mask. destruct (nf_type_eqb ty NfRecovery); [|reflexivity].
-  destruct (nf_may_defer _ _ _); reflexivity.
+  destruct (nf_may_defer c oi); reflexivity.
+Qed.
+
+Lemma nf_prologue_inc ty g :
+  g_inc (nf_g0 ty g) = if nf_type_eqb ty NfRecovery then (if nf_rec_deferred oi then g_inc g else []) else g_inc g.
+Proof.
+  unfold nf_g0, nf_g_ev, nf_g_mask. destruct (nf_type_eqb ty NfRecovery); [|reflexivity].
+  destruct (nf_may_defer c oi); reflexivity.
 Qed.
 
 Lemma nf_prologue_rem ty g t : g_rem (nf_g0 ty g) = Some t -> g_rem g = Some t.
 Proof.
   unfold nf_g0, nf_g_ev, nf_g_mask. destruct (nf_type_eqb ty NfRecovery); [|auto].
-  destruct (nf_may_defer _ _ _); cbn; [discriminate|auto].
-Qed.
-
-Lemma nf_prologue_psbad ty g : g_ps (nf_g0 ty g) = true -> g_bad (nf_g0 ty g) = false -> g_ps g = true /\ g_bad g = false.
-Proof.
-  unfold nf_g0, nf_g_ev, nf_g_mask. destruct (nf_type_eqb ty NfRecovery); [|auto].
-  destruct (nf_may_defer _ _ _); cbn; discriminate.
+  destruct (nf_may_defer c oi); cbn; [discriminate|auto].
 Qed.
 
 Lemma nf_obs_exec e :
@@ -139,9 +177,10 @@ Proof. reflexivity. Qed.
 
 (* the side conditions under which a BeginExecuteNotification call happens inside an operation *)
 Definition NfSide (ty : nf_type) (force rem : bool) (s : nf_state) (g : nf_ghost) : Prop :=
-  (force = true -> oi_mayforce oi = true) /\
+  (force = true -> nf_mayforce oi ty = true) /\
   (force = false -> cx_glob_en x = true /\ cx_ck_en x = true) /\
-  (oi_tick oi = false -> rem = false) /\
+  (oi_tick oi = false -> rem = false /\ nf_mayforce oi ty = force) /\
+  (ty = NfProblem -> force = false -> oi_pdefer oi = true) /\
   (oi_tick oi = true -> oi_remposs oi = true -> ty = NfProblem ->
      nf_rem_ctx_ok c x = true /\ (forall t, g_rem g = Some t -> t + nfc_interval c <= now) /\
      (nfc_interval c <= 0 -> nf_nomore s = false)).
@@ -152,11 +191,14 @@ Lemma nf_begin_ok ty force rem s g s' e :
   (forall v, In v (nf_check_evs c oi g (nf_obs_ev (NfEvExec e))) -> nf_is_bad v = false) /\
   NfInvM c oi s' (nf_g_evs c oi g (nf_obs_ev (NfEvExec e))) /\
   nf_stash s' = nf_stash s /\
-  (cx_per_closed x = false \/ force = true -> nf_sup s' = nf_sup s) /\
+  (ty <> NfProblem -> sp_problem (nf_sup s') = true -> sp_problem (nf_sup s) = true) /\
   ne_type e = ty.
 Proof.
   intros HI HS HB.
   pose proof (nf_prologue_inv ty s g HI) as HI0.
+  pose proof (nf_prologue_incset ty g) as HIS.
+  pose proof (nf_prologue_inc ty g) as HInc.
+  assert (g_inc g = nf_npu s) as HA by (destruct HI as ((A & _) & _); exact A).
   unfold nf_begin in HB. fold (nf_s0 ty s) in HB.
   assert (nf_stash (nf_s0 ty s) = nf_stash s /\ nf_sup (nf_s0 ty s) = nf_sup s /\ nf_npu (nf_s0 ty s) = nf_npu s
           /\ nf_nomore (nf_s0 ty s) = nf_nomore s /\ nf_next (nf_s0 ty s) = nf_next s) as (S0st & S0sup & S0npu & S0nm & S0nx).
@@ -171,6 +213,7 @@ Proof.
     - cbn [nf_check_evs nf_g_evs fold_left]. split; [|assumption].
       intros v [<-|[]]. reflexivity.
     - cbn. split; [intros v []|assumption]. }
+  destruct HS as (HSf & HSe & HSr & HSd & HSrem).
   destruct (nf_pre c now x ty force) eqn:G.
   - (* the per-user loop is reached *)
     destruct (nf_loop c x ty force rem (cx_users x) (nf_npu s0) (nf_lns s0)) as [sent nl] eqn:L.
@@ -185,22 +228,22 @@ Proof.
             nf_g_ev c oi g0 (NfoDone ty sent)) as Eg.
     { unfold g0, nf_g0. destruct (nf_type_eqb ty NfRecovery); reflexivity. }
     rewrite Ec, Eg. clear Ec Eg.
-    destruct HI0 as ((A0 & B0 & C0 & D0 & E0) & M0 & T0).
-    destruct HS as (HSf & HSe & HSr & HSrem).
-    split; [|split; [|split; [assumption|split; [intros _; assumption|reflexivity]]]].
+    destruct HI0 as (B0 & C0 & D0 & E0 & M0 & T0).
+    split; [|split; [|split; [assumption|split; [intros _; rewrite <- S0sup; auto|reflexivity]]]].
     + (* the checks *)
       intros v Hv. apply in_app_or in Hv. destruct Hv as [Hv|[<-|[]]].
       { destruct (nf_type_eqb ty NfRecovery); [destruct Hv as [<-|[]]; reflexivity|destruct Hv]. }
       assert (forall u, In u sent -> exists ur, In ur (cx_users x) /\ nfu_id ur = u /\ nfu_enable ur = true /\
-                (oi_mayforce oi || nf_full_ok c now x ty ur) = true /\
-                ((ty = NfRecovery \/ ty = NfAck) -> nf_mem u (g_all g0) = true \/ nf_passes (nfu_types ur) 32 = false)) as Hsent.
+                (nf_mayforce oi ty || nf_full_ok c now x ty ur) = true /\
+                ((ty = NfRecovery \/ ty = NfAck) ->
+                   nf_mem u (if nf_type_eqb ty NfRecovery then g_pre g0 else g_inc g0) = true \/ nf_passes (nfu_types ur) 32 = false)) as Hsent.
       { intros u Hu. pose proof (nf_loop_sent c x ty force rem (cx_users x) (nf_npu s0) (nf_lns s0) u) as Hl.
         rewrite L in Hl. destruct (Hl Hu) as (ur & I1 & I2 & I3 & I4 & I5).
         exists ur. repeat split; auto.
         - destruct force.
           + rewrite (HSf eq_refl). reflexivity.
           + destruct (HSe eq_refl) as [E1 E2]. rewrite (nf_full_ok_intro c now x ty ur G I4 E1 E2). apply orb_true_r.
-        - rewrite A0. assumption. }
+        - rewrite HIS, HA, <- S0npu. assumption. }
       assert (forallb (nf_okA c oi ty) sent = true) as K1.
       { apply forallb_forall. intros u Hu. destruct (Hsent u Hu) as (ur & I1 & I2 & I3 & I4 & _).
         unfold nf_okA. apply existsb_exists. exists ur. split; [assumption|].
@@ -208,17 +251,17 @@ Proof.
       assert (nf_type_eqb ty NfProblem = true -> oi_tick oi = false -> cx_volatile x = false ->
               forallb (fun u => negb (nf_api_state (nfc_svc c) (cx_raw x) =? nf_lns_get u (g_last g0))) sent = true) as K3.
       { intros Ep Ht Hv. apply forallb_forall. intros u Hu. apply nf_type_eqb_eq in Ep.
-        pose proof (nf_loop_nodup c x ty force rem (cx_users x) (nf_npu s0) (nf_lns s0) u Ep (HSr Ht) Hv) as Hl.
+        pose proof (nf_loop_nodup c x ty force rem (cx_users x) (nf_npu s0) (nf_lns s0) u Ep (proj1 (HSr Ht)) Hv) as Hl.
         rewrite L in Hl. rewrite B0, (Hl Hu). reflexivity. }
-      assert (forallb (fun u => nf_okB c oi g0 ty u || nf_mem u (g_all g0)) sent = true \/
+      assert (forallb (nf_okB c oi g0 ty) sent = true \/
               (nf_type_eqb ty NfRecovery || nf_type_eqb ty NfAck) = false) as K2.
       { destruct (nf_type_eqb ty NfRecovery || nf_type_eqb ty NfAck) eqn:Era; [left|right; reflexivity].
         assert (ty = NfRecovery \/ ty = NfAck) as Hra.
         { apply orb_true_iff in Era. destruct Era as [Er|Er]; apply nf_type_eqb_eq in Er; auto. }
         apply forallb_forall. intros u Hu. destruct (Hsent u Hu) as (ur & I1 & I2 & I3 & I4 & I5).
-        destruct (I5 Hra) as [Mm|Ns]; [rewrite Mm; apply orb_true_r|].
-        apply orb_true_iff. left. unfold nf_okB. apply existsb_exists. exists ur. split; [assumption|].
-        fold x now. rewrite I3, I4, Ns. subst u. rewrite Z.eqb_refl. cbn. apply orb_true_r. }
+        unfold nf_okB. apply existsb_exists. exists ur. split; [assumption|].
+        fold x now. rewrite I3, I4. subst u. rewrite Z.eqb_refl. cbn [andb].
+        destruct (I5 Hra) as [Mm|Ns]; [rewrite Mm; reflexivity|rewrite Ns; apply orb_true_r]. }
       unfold nf_check. fold x now. rewrite K1. cbn [negb].
       destruct (nf_type_eqb ty NfProblem) eqn:Ep.
       * (* Problem *)
@@ -243,7 +286,7 @@ Proof.
            rewrite (K3 eq_refl eq_refl eq_refl). reflexivity.
       * cbn [andb].
         destruct K2 as [K2|K2].
-        -- rewrite K2. destruct (_ && _); reflexivity.
+        -- rewrite K2. rewrite andb_false_r. reflexivity.
         -- rewrite K2. reflexivity.
     + (* the invariant *)
       unfold nf_g_ev. apply nf_mask_inv.
@@ -251,9 +294,9 @@ Proof.
           destruct (nf_type_eqb ty NfCustom); assumption. }
       destruct (nf_type_eqb ty NfProblem) eqn:Ep.
       * assert (nf_type_eqb ty NfRecovery = false) as Er by (apply nf_type_eqb_eq in Ep; subst ty; reflexivity).
-        rewrite Er. rewrite Lsnd. cbn [fst snd].
-        repeat split; cbn [g_all g_last g_ps g_bad g_rem g_tm nf_mkg nf_npu nf_lns nf_nomore nf_next nf_stash].
-        -- rewrite A0. reflexivity.
+        rewrite Er in HInc. rewrite Er. rewrite Lsnd. cbn [fst snd].
+        repeat split; cbn [g_inc g_last g_ps g_bad g_rem g_tm nf_mkg nf_npu nf_lns nf_nomore nf_next nf_stash].
+        -- rewrite HInc, HA, <- S0npu. reflexivity.
         -- rewrite B0. reflexivity.
         -- intros _ _ Hi. assert (nfc_interval c <=? 0 = true) as Ei by lia. rewrite Ei. reflexivity.
         -- inversion H; subst t. rewrite T0. fold now. lia.
@@ -263,28 +306,39 @@ Proof.
         destruct (nf_type_eqb ty NfRecovery) eqn:Er.
         -- assert (nf_lns s0 = []) as Hl0 by (unfold s0, nf_s0; rewrite Er; reflexivity).
            repeat split; cbn; try rewrite Hl0; auto; try (intros; discriminate); apply D0; assumption.
-        -- destruct (nf_type_eqb ty NfCustom) eqn:Ecu.
-           ++ repeat split; cbn [g_all g_last g_ps g_bad g_rem g_tm nf_mkg nf_npu nf_lns nf_nomore nf_next nf_stash negb]; auto;
+        -- assert (g_inc g0 = nf_npu s0) as HA0 by (rewrite HInc, HA, <- S0npu; reflexivity).
+           destruct (nf_type_eqb ty NfCustom) eqn:Ecu.
+           ++ repeat split; cbn [g_inc g_last g_ps g_bad g_rem g_tm nf_mkg nf_npu nf_lns nf_nomore nf_next nf_stash negb]; auto;
               apply D0; assumption.
-           ++ repeat split; cbn [g_all g_last g_ps g_bad g_rem g_tm nf_mkg nf_npu nf_lns nf_nomore nf_next nf_stash negb]; auto;
+           ++ repeat split; cbn [g_inc g_last g_ps g_bad g_rem g_tm nf_mkg nf_npu nf_lns nf_nomore nf_next nf_stash negb]; auto;
               try discriminate; apply D0; assumption.
   - (* period closed *)
     inversion HB; subst s' e; clear HB.
     destruct (nf_pre_period _ _ _ _ _ G) as [Pc Pf].
+    assert (g_inc g0 = nf_npu s0) as HA0.
+    { rewrite HInc, HA, <- S0npu. destruct (nf_type_eqb ty NfRecovery) eqn:Er; [|reflexivity].
+      assert (nf_rec_deferred oi = true) as Dd.
+      { unfold nf_rec_deferred. fold x. rewrite Pc. cbn [andb].
+        destruct (oi_tick oi) eqn:Ht; [reflexivity|]. cbn [orb].
+        apply nf_type_eqb_eq in Er. subst ty. rewrite (proj2 (HSr eq_refl)), Pf. reflexivity. }
+      rewrite Dd. reflexivity. }
     assert (NfInvM c oi (if negb rem && nf_supp_type ty then nf_set_sup s0 (nf_supp_add (nf_sup s0) ty) else s0) g0) as H1.
-    { destruct (negb rem && nf_supp_type ty); [|assumption].
-      destruct HI0 as ((A0 & B0 & C0 & D0 & E0) & M0 & T0). split; [|split; assumption].
+    { destruct (negb rem && nf_supp_type ty); [|apply NfInvB_intro; assumption].
+      destruct HI0 as (B0 & C0 & D0 & E0 & M0 & T0). split; [|split; assumption].
       repeat split; auto; apply D0; assumption. }
     destruct (Early _ H1) as [K1 K2]. split; [assumption|split; [assumption|]].
     split; [destruct (negb rem && nf_supp_type ty); assumption|].
     split; [|reflexivity].
-    intros [F|F]; [fold x in Pc; rewrite Pc in F; discriminate|rewrite Pf in F; discriminate].
+    intros Np. destruct (negb rem && nf_supp_type ty); [|rewrite S0sup; auto].
+    cbn [nf_sup nf_set_sup]. rewrite S0sup. apply nf_supp_add_problem. assumption.
   - (* before times.begin: next_notification re-armed *)
     inversion HB; subst s' e; clear HB.
-    destruct (nf_pre_begin_defer _ _ _ _ _ G) as [Md Tp]. subst ty.
+    destruct (nf_pre_begin_defer _ _ _ _ _ G) as (Bc & Tp & Ff). subst ty.
+    assert (nf_may_defer c oi = true) as Md.
+    { unfold nf_may_defer. fold now x. rewrite (HSd eq_refl Ff). exact Bc. }
     rewrite nf_obs_exec. cbn [ne_type ne_reached nf_mk_exec nf_type_eqb nf_type_bit Z.eqb Pos.eqb app].
     cbn [nf_check_evs nf_g_evs fold_left].
-    split; [intros v []|]. split; [|repeat split; auto].
+    split; [intros v []|]. split; [|split; [reflexivity|split; [intros N; contradiction|reflexivity]]].
     destruct HI as ((A & B & C & D & E) & M & T).
     destruct (M Md) as [Mps Mrem].
     split; [|split; assumption].
@@ -295,24 +349,43 @@ Proof.
     + rewrite Mrem in H. discriminate.
   - (* after times.end *)
     inversion HB; subst s' e; clear HB.
-    destruct (Early _ HI0) as [K1 K2].
-    split; [exact K1|split; [exact K2|split; [assumption|split; [intros _; assumption|reflexivity]]]].
+    assert (g_inc g0 = nf_npu s0) as HA0.
+    { rewrite HInc, HA, <- S0npu.
+      assert (nf_type_eqb ty NfProblem = true) as Ep by (apply (nf_pre_problem_gate c now x ty force); auto).
+      apply nf_type_eqb_eq in Ep. subst ty. reflexivity. }
+    destruct (Early _ (NfInvB_intro _ _ HA0 HI0)) as [K1 K2].
+    split; [exact K1|split; [exact K2|split; [assumption|split; [intros _; rewrite S0sup; auto|reflexivity]]]].
   - (* notification type filter *)
     inversion HB; subst s' e; clear HB.
-    assert (NfInvM c oi (if nf_type_eqb ty NfRecovery && (nfc_interval c <=? 0) then nf_set_nomore s0 false else s0) g0) as H1.
-    { destruct (nf_type_eqb ty NfRecovery) eqn:Er; cbn [andb]; [|assumption].
+    destruct (nf_pre_type _ _ _ _ _ G) as [Po Pf].
+    set (s1 := if nf_type_eqb ty NfRecovery && (nfc_interval c <=? 0) then nf_set_nomore s0 false else s0).
+    assert (NfInvB s1 g0) as HB1.
+    { unfold s1. destruct (nf_type_eqb ty NfRecovery) eqn:Er; cbn [andb]; [|assumption].
       destruct (nfc_interval c <=? 0); [|assumption].
-      destruct HI0 as ((A0 & B0 & C0 & D0 & E0) & M0 & T0).
-      split; [|split; assumption].
-      repeat split; auto; try (apply D0; assumption).
+      destruct HI0 as (B0 & C0 & D0 & E0 & M0 & T0).
+      split; [exact B0|]. split; [|split; [exact D0|split; [exact E0|split; assumption]]].
       intros Hps. exfalso. revert Hps. unfold g0, nf_g0. rewrite Er. unfold nf_g_ev, nf_g_mask.
-      destruct (nf_may_defer _ _ _); cbn; discriminate. }
+      destruct (nf_may_defer c oi); cbn; discriminate. }
+    assert (nf_stash s1 = nf_stash s0 /\ nf_sup s1 = nf_sup s0 /\ nf_npu s1 = nf_npu s0) as (S1a & S1b & S1c).
+    { unfold s1. destruct (_ && _); repeat split. }
+    assert (NfInvM c oi (if nf_type_eqb ty NfRecovery then nf_set_npu s1 [] else s1) g0) as H1.
+    { destruct (nf_type_eqb ty NfRecovery) eqn:Er.
+      - assert (g_inc g0 = []) as Hg.
+        { rewrite HInc. unfold nf_rec_deferred. fold x. rewrite Po. reflexivity. }
+        destruct HB1 as (B0 & C0 & D0 & E0 & M0 & T0). split; [|split; assumption].
+        split; [exact Hg|]. repeat split; auto; apply D0; assumption.
+      - apply NfInvB_intro; [|assumption]. rewrite HInc, HA, S1c, <- S0npu. reflexivity. }
     destruct (Early _ H1) as [K1 K2]. split; [assumption|split; [assumption|]].
-    split; [destruct (_ && _); assumption|]. split; [|reflexivity].
-    intros _. destruct (_ && _); assumption.
+    split; [destruct (nf_type_eqb ty NfRecovery); cbn [nf_stash nf_set_npu]; rewrite S1a; assumption|].
+    split; [|reflexivity].
+    intros _. destruct (nf_type_eqb ty NfRecovery); cbn [nf_sup nf_set_npu]; rewrite S1b, S0sup; auto.
   - (* notification state filter *)
     inversion HB; subst s' e; clear HB.
-    destruct (Early _ HI0) as [K1 K2].
-    split; [exact K1|split; [exact K2|split; [assumption|split; [intros _; assumption|reflexivity]]]].
+    assert (g_inc g0 = nf_npu s0) as HA0.
+    { rewrite HInc, HA, <- S0npu.
+      assert (nf_type_eqb ty NfProblem = true) as Ep by (apply (nf_pre_problem_gate c now x ty force); auto).
+      apply nf_type_eqb_eq in Ep. subst ty. reflexivity. }
+    destruct (Early _ (NfInvB_intro _ _ HA0 HI0)) as [K1 K2].
+    split; [exact K1|split; [exact K2|split; [assumption|split; [intros _; rewrite S0sup; auto|reflexivity]]]].
 Qed.
 End Begin.
